@@ -231,6 +231,7 @@ int Broker::emit(BConn& c, Packet p, ns_t delay, int reply_to, int msg, bool hos
     if (p.type == PUBREL && !hostile) { if (c.pubrel_blocked && !healed) withhold = true; else if (withhold) c.pubrel_blocked = true; }
     if (killed || withhold) {
         if (withhold && reply_to >= 0) ++c.unanswered;
+        if (msg >= 0 && msg < (int)msgs.size()) msgs[msg].emission_withheld = true;
         return -1;
     }
     auto r = rng_for(c.conn, "enc", ++emit_counter_);
